@@ -138,3 +138,29 @@ PLAN["C12"]["apalache"] = ("LibItInd.tla", [
     ("IndInv => Safety", ["--init=IndInit", "--inv=Safety", "--length=0"]),
 ])
 PLAN["C12"]["tlaps"] = "LibItProof.tla"
+
+
+# vacuity guard: clause tags every run of a property's check must have exercised; if one is
+# missing (and nothing was reported) the run decided nothing about that part of the property and
+# the check ends as a tool problem (exit 2), never as "held"
+REQUIRED_TAGS = {
+    "C01": [r"^QWT\.rank\.gen", r"^QWT\.select\.gen", r"^QWT\.get\.in"],
+    "C02": [r"^HQWT\.rank\.gen", r"^HQWT\.select\.gen", r"^HQWT\.get\.in"],
+    "C03": [r"^WT\.rank\.gen", r"^HWT\.rank\.gen", r"^WT\.select\.gen", r"^HWT\.select\.gen"],
+    "C04": [r"\.get\.out", r"select[01]?\.missing", r"rank[01]?\.pos_out"],
+    "C05": [r"^RSQ\.rank\.gen", r"^RSQ\.select\.gen", r"^RSQ\.occs"],
+    "C06": [r"^RSN\.rank1\.gen", r"^RSW\.rank1\.gen", r"^RSN\.select1\.gen", r"^RSW\.select0\.gen"],
+    "C07": [r"^DA\.select1\.gen", r"^DA\.select0\.gen"],
+    "C08": [r"^BVM\.mut\..*\.ok", r"^BV\.get_bits\.gen", r"^BV\.meta\.ones"],
+    "C09": [r"^rel\.prefetch", r"^rel\.xbuild"],
+    "C10": [r"^unchecked\.rank_unchecked", r"^unchecked\.select_unchecked", r"^unchecked\.get_unchecked"],
+    "C11": [r"^conv\.serde\..*\.eq", r"^rel\.serde"],
+    "C12": [r"^WTIter\.next\.live", r"^WTIter\.next_back\.live", r"^WTIter\.len", r"^BVIter", r"^PosIter", r"^QVIter"],
+    "C13": [r"^QV\.get\.in", r"^QB\.mut\.qpush\.ok", r"^QB\.mut\.qextend\.ok", r"^QVIter"],
+    "C14": [r"^space\.bound\.QWT", r"^space\.bound\.WT", r"^space\.bound\.RSQ256"],
+    "C15": [r"^space\.huff\.entropy\.HQWT", r"^space\.huff\.entropy\.HWT", r"^space\.huff\.not_above_plain"],
+    "C16": [r"^space\.reported\.QWT", r"^space\.reported\.HWT", r"^space\.reported\.std", r"^space\.scaled"],
+    "C17": [r"^util\.select_in_word\.found", r"^util\.select_in_word_u128", r"^util\.popcnt_wide", r"^util\.msb", r"^util\.part4", r"^util\.part2", r"^util\.text_remap"],
+    "C18": [r"^pure\.serialized_form", r"^pure\.repeatable", r"^thr\.same_as_sequential"],
+    "C19": [r"^eq\..*\.same", r"^eq\..*\.different", r"^rel\.path", r"^rel\.clone", r"^rel\.carrier"],
+}
